@@ -108,7 +108,11 @@ def replay_batch(jobs: list[dict[str, Any]], nproc: int | None = None) -> list[d
             procs.append((k, ch, fout, p))
         results: list[Any] = [None] * len(jobs)
         for k, ch, fout, p in procs:
-            so, se = p.communicate()
+            try:
+                so, se = p.communicate(timeout=1800)
+            except subprocess.TimeoutExpired:
+                p.kill()
+                raise RuntimeError("replay worker did not finish within 30 minutes (the code under replay hangs?)")
             if p.returncode != 0:
                 raise RuntimeError(f"replay worker failed: {se.decode()[-2000:]}")
             res = json.loads(fout.read_text())
